@@ -220,6 +220,26 @@ fn walk_keys(
                             other.map(short)
                         )),
                     }
+                    // scoping: `<S as LocaleKeys>::from_locale(l)` (what a scoped context / scoped locale uses to build
+                    // the keys of scope S) must be the very value the accessor chain gives for the same locale
+                    let via_accessors = Val::Struct(sty.clone(), fields.clone());
+                    let mut ev2 = Ev::new(idx);
+                    let scoped = idx
+                        .find_method(&sty, "from_locale", Some("LocaleKeys"))
+                        .first()
+                        .copied()
+                        .ok_or_else(|| "no LocaleKeys impl".to_string())
+                        .and_then(|(info, f)| ev2.call_fn(info, f, None, vec![Val::Loc(LocT::Sym)]));
+                    match scoped {
+                        Ok(v) if v == via_accessors => notes.push(format!("scope-ok {}", path.join("."))),
+                        Ok(v) => notes.push(format!(
+                            "scope-differs {}: from_locale gives {} with locale {:?}",
+                            path.join("."),
+                            short(&v),
+                            match &v { Val::Struct(_, f) => f.get("0").map(short), _ => None }
+                        )),
+                        Err(e) => notes.push(format!("scope-unknown {}: {}", path.join("."), e)),
+                    }
                     walk_keys(idx, &sty, path, out, notes, depth + 1)?;
                 }
             }
